@@ -266,7 +266,10 @@ impl Workload for PersistWorkload {
             ex.log.push(format!("op {oi}: {op:?}"));
             let differs = |what: &str| v(&format!("persist:{kind}-differs"), format!("op {oi} {op:?}: {what} differs between the in-memory array and the reloaded file (k={} fits64={})", c.k, c.fits64));
             let status = |a: &ProcOut, bb: &ProcOut| -> V {
-                if a.status_str() != bb.status_str() {
+                // success or refusal must agree; HOW a refusal is reported (a panic of the library
+                // call, an error message and exit 1 of the command line) is nobody's property
+                let class = |o: &ProcOut| if o.ok() { 0 } else if o.refused() { 1 } else { 2 };
+                if class(a) != class(bb) || (class(a) == 2 && a.status_str() != bb.status_str()) {
                     v(&format!("persist:{kind}-status-differs"), format!("op {oi} {op:?}: in-memory {} / reloaded file {} (k={} fits64={}): {}", a.status_str(), bb.status_str(), c.k, c.fits64, if a.ok() { bb.stderr_tail() } else { a.stderr_tail() }))
                 } else {
                     None
